@@ -53,6 +53,10 @@ pub trait Check: Sync {
     fn run(&self, bytes: &[u8]) -> CaseResult;
     /// readable decoded case
     fn describe(&self, bytes: &[u8]) -> Value;
+    /// bound on library shrink steps (expensive cases lower it)
+    fn shrink_iters(&self) -> u32 {
+        3000
+    }
 }
 
 #[derive(Clone, Debug, Default)]
@@ -261,7 +265,7 @@ pub fn run_pbt(ctx: &Ctx, check: &dyn Check, cases: u64) -> Part {
                 let config = Config {
                     cases: my_cases.min(u32::MAX as u64) as u32,
                     failure_persistence: None,
-                    max_shrink_iters: 3000,
+                    max_shrink_iters: check.shrink_iters(),
                     max_shrink_time: 120_000,
                     ..Config::default()
                 };
